@@ -247,6 +247,9 @@ func (d *Decoder) readTagObject() (interface{}, error) {
 	clsD := d.clsDefList[idx]
 	typ, ok := d.typMap[clsD.FullClassName]
 	if !ok {
+		if d.skipping > 0 {
+			return nil, d.skipObject(clsD)
+		}
 		return nil, newCodecError("readTagObject", "undefined type: %s", clsD.FullClassName)
 	}
 	return EnsureInterface(d.readObject(typ, clsD))
@@ -261,6 +264,9 @@ func (d *Decoder) ReadLenTagObject(tag byte) (interface{}, error) {
 	clsD := d.clsDefList[i]
 	typ, ok := d.typMap[clsD.FullClassName]
 	if !ok {
+		if d.skipping > 0 {
+			return nil, d.skipObject(clsD)
+		}
 		return nil, newCodecError("ReadLenTagObject", "undefined type: %s", clsD.FullClassName)
 	}
 	return EnsureInterface(d.readObject(typ, clsD))
@@ -279,6 +285,18 @@ func (d *Decoder) readObjectDef() (interface{}, error) {
 	// a class definition may precede any value (value ::= class-def value),
 	// not only an instance of the class it defines
 	return d.ReadData()
+}
+
+// skipObject reads and drops an instance of a class the type map does not know; the
+// instance still takes its place in the reference table
+func (d *Decoder) skipObject(cls ClassDef) error {
+	d.addDecoderRef(reflect.ValueOf(&struct{}{}))
+	for range cls.FieldName {
+		if _, err := d.ReadData(); err != nil {
+			return newCodecError("skipObject", err)
+		}
+	}
+	return nil
 }
 
 // var readObjectIndex = 0
@@ -303,7 +321,12 @@ func (d *Decoder) readObject(typ reflect.Type, cls ClassDef) (interface{}, error
 			hlog.Debugf("%s is not found, will skip type ->p %v", fldName, typ)
 			// the value of a field unknown to the Go type is read and dropped,
 			// so that the fields after it stay aligned with the definition
-			if _, err := d.ReadData(); err != nil {
+			// (a value that is dropped needs no Go types: lists, maps and objects of types
+			// the type map does not know are read generically, keeping every table aligned)
+			d.skipping++
+			_, err := d.ReadData()
+			d.skipping--
+			if err != nil {
 				return nil, newCodecError("readObject", "failed to skip field '%s'", fldName, err)
 			}
 			continue
